@@ -39,6 +39,7 @@ class Source(Stream):
 
     def __init__(self, start=False, **kwargs):
         self.stopped = True
+        self._run_live = False
         super().__init__(ensure_io_loop=True, **kwargs)
         self.started = False
         if start:
@@ -53,12 +54,25 @@ class Source(Stream):
         """start polling
 
         If already running, this has no effect. If the source was started and then
-        stopped again, this will restart the ``self.run`` coroutine.
+        stopped again, this will restart the ``self.run`` coroutine, unless the
+        previous invocation has not finished yet (it has not noticed the stop):
+        in that case it simply carries on.
         """
         if self.stopped:
             self.stopped = False
             self.started = True
-            self.loop.add_callback(self.run)
+            if not self._run_live:
+                self._run_live = True
+                self.loop.add_callback(self._run_once)
+
+    async def _run_once(self):
+        """Invoke ``run()``, keeping track of whether it is still in progress"""
+        try:
+            result = self.run()
+            if isawaitable(result):
+                await result
+        finally:
+            self._run_live = False
 
     async def run(self):
         """This coroutine will be invoked by start() and emit all data
